@@ -45,6 +45,11 @@ def corpus(tier, seed):
         for cn in ("top", "fnbody", "arg"):
             out.append({"prog": w[cn], "ctx": cn, "src": "capture", "base": base})
         base += 1
+    for p in G.interop_programs(rnd, 150 if tier == "quick" else 1500):
+        w = G.contexts(p)
+        for cn in ("top", "fnbody", "arg"):
+            out.append({"prog": w[cn], "ctx": cn, "src": "interop", "base": base})
+        base += 1
     nrand = 2500 if tier == "quick" else 40000
     for t in range(nrand):
         depth = rnd.choice([2, 3, 3, 4, 4, 5] if tier == "quick" else [3, 4, 4, 5, 5, 6])
